@@ -43,6 +43,15 @@ struct Args {
     int budget = 300;
 };
 
+static Plan plan_for(const std::string& focus, uint64_t seed) {
+    if (focus == "C19diff") return generate_diff(seed);
+    if (focus == "C08x") return generate_exhaust(seed);
+    if (focus == "C06x") return generate_serialwrap(seed);
+    if (focus == "C20x") return generate_rc(seed);
+    if (focus == "C11x") return generate_c11x(seed);
+    return generate(seed, focus);
+}
+
 static Args parse(int argc, char** argv) {
     Args a;
     if (argc > 1) a.mode = argv[1];
@@ -141,12 +150,12 @@ int main(int argc, char** argv) {
     }
     if (a.mode == "selftest") { puts("selftest ok"); return 0; }
     if (a.mode == "gen") {
-        Plan p = a.focus == "C19diff" ? generate_diff(a.seed) : a.focus == "C08x" ? generate_exhaust(a.seed) : a.focus == "C20x" ? generate_rc(a.seed) : a.focus == "C11x" ? generate_c11x(a.seed) : generate(a.seed, a.focus);
+        Plan p = plan_for(a.focus, a.seed);
         puts(plan_to_json(p).c_str());
         return 0;
     }
     if (a.mode == "run") {
-        Plan p = a.focus == "C19diff" ? generate_diff(a.seed) : a.focus == "C08x" ? generate_exhaust(a.seed) : a.focus == "C20x" ? generate_rc(a.seed) : a.focus == "C11x" ? generate_c11x(a.seed) : generate(a.seed, a.focus);
+        Plan p = plan_for(a.focus, a.seed);
         return run_one(p, a, a.verbose);
     }
     if (a.mode == "replay") {
@@ -185,7 +194,7 @@ int main(int argc, char** argv) {
                 if (!vs.empty()) rc = 1;
                 continue;
             }
-            Plan p = a.focus == "C08x" ? generate_exhaust(seed) : a.focus == "C20x" ? generate_rc(seed) : a.focus == "C11x" ? generate_c11x(seed) : generate(seed, a.focus);
+            Plan p = plan_for(a.focus, seed);
             auto t0 = sim::real_ns();
             Sim s(p, false);
             s.execute();
@@ -209,7 +218,7 @@ int main(int argc, char** argv) {
         if (!a.file.empty()) {
             std::ifstream f(a.file); std::stringstream ss; ss << f.rdbuf(); std::string err;
             if (!plan_from_replay(ss.str(), p, &err)) { fprintf(stderr, "cannot parse: %s\n", err.c_str()); return 2; }
-        } else p = a.focus == "C19diff" ? generate_diff(a.seed) : a.focus == "C08x" ? generate_exhaust(a.seed) : a.focus == "C20x" ? generate_rc(a.seed) : a.focus == "C11x" ? generate_c11x(a.seed) : generate(a.seed, a.focus);
+        } else p = plan_for(a.focus, a.seed);
         return shrink_main(p, a.sig, a.out, a.budget);
     }
     fprintf(stderr, "usage: simc run|worker|replay|shrink|gen|selftest ...\n");
